@@ -11,7 +11,8 @@ package main
 //	snap <sid> <name> | sget|shas <sid> k | siter <sid> p s | srel <sid>
 //	flush|drop|nfp|nfs <name>             Flush / DropNotFlushed / NotFlushedPairs / NotFlushedSizeEst
 //	init <name>                           LazyFlushable.InitUnderlyingDb
-//	compact <name> <start|nil> <limit|nil>  -> the range that reached the backend
+//	compact <name> <start|nil> <limit|nil>  -> the range that reached the backend (which compacts it)
+//	settle <name>                         Stat("sync_flush") through the stack + a full engine compaction
 //	incp <prefix> | nop <key> <prefix> | bpr ldb|pbl <prefix|nil> <start|nil>   (pure helpers)
 
 import (
@@ -52,6 +53,9 @@ type recorder struct {
 
 func (r *recorder) Compact(start, limit []byte) error {
 	r.last = optHex(start) + ".." + optHex(limit)
+	// the engine really compacts the range (an engine may refuse an empty or inverted range: that is
+	// not part of the key-value semantics, the recorded range is what the stream compares)
+	_ = r.Store.Compact(start, limit)
 	return nil
 }
 
@@ -419,6 +423,12 @@ func (q *kvRunner) Step(line string) string {
 			return fmt.Sprint(nd.fl.NotFlushedSizeEst())
 		}
 		return "noflushable"
+	case "settle":
+		// force the engine to move what it holds in memory into its tables and to compact them: the
+		// identity on the key-value content (pebble: Stat("sync_flush"); other stores may not know the property)
+		_, _ = st.Stat("sync_flush")
+		_ = q.rec.Store.Compact(nil, nil)
+		return "ok"
 	case "compact":
 		q.rec.last = "none"
 		if err := st.Compact(optBytes(f[2]), optBytes(f[3])); err != nil {
